@@ -421,6 +421,50 @@ def check_parsed_dates(fails):
                         return
 
 
+def check_int_domain(fails):
+    """C13 deterministic family: values outside the domain of an integer field - out of range or not whole numbers - are
+    rejected at indexing time and at query time (Term and range bounds), never wrapped or truncated."""
+    from whoosh import fields, query
+    from whoosh.filedb.filestore import RamStorage
+    for bits, signed, lo, hi in ((8, True, -128, 127), (16, False, 0, 65535), (32, True, -2 ** 31, 2 ** 31 - 1)):
+        ix = RamStorage().create_index(fields.Schema(k=fields.ID(stored=True), n=fields.NUMERIC(int, bits, signed=signed)))
+        w = ix.writer()
+        w.add_document(k=u"0", n=3)
+        w.add_document(k=u"1", n=hi)
+        w.add_document(k=u"2", n=lo)
+        accepted = []
+        for badv in (3.7, -0.5, hi + 1, lo - 1, float(hi) + 0.5):
+            try:
+                w.add_document(k=u"bad", n=badv)
+                accepted.append(badv)
+            except (ValueError, OverflowError):
+                pass
+        w.commit()
+        if accepted:
+            fails.append({"case": "C01-domain/numrange", "detail": "NUMERIC(int, %d, signed=%s) accepted %r at indexing time" % (bits, signed, accepted), "corpus": None})
+            return
+        vals = {"0": 3, "1": hi, "2": lo}
+        with ix.searcher() as s:
+            # a query value outside the domain is either rejected or answered with the mathematically exact set - never with
+            # the documents of a wrapped or truncated value
+            for q, exact in ((query.Term("n", 3.7), lambda v: v == 3.7), (query.NumericRange("n", 1.5, 3.5), lambda v: 1.5 <= v <= 3.5),
+                             (query.NumericRange("n", lo - 1, 3), lambda v: lo - 1 <= v <= 3), (query.NumericRange("n", 3, hi + 1), lambda v: 3 <= v <= hi + 1)):
+                try:
+                    got = sorted(h["k"] for h in s.search(q, limit=None))
+                except (ValueError, OverflowError):
+                    continue
+                exp = sorted(k_ for k_, v in vals.items() if exact(v))
+                if got != exp:
+                    fails.append({"case": "C01-domain/numrange", "detail": "NUMERIC(int, %d, signed=%s): %r -> %r; the value is outside the field's "
+                                  "domain: expected a rejection or the exact answer %r" % (bits, signed, q, got, exp), "corpus": None})
+                    return
+            # whole-number floats are inside the domain
+            got = sorted(h["k"] for h in s.search(query.NumericRange("n", 3.0, float(hi)), limit=None))
+            if got != ["0", "1"]:
+                fails.append({"case": "C01-domain/numrange", "detail": "NumericRange(n, 3.0, %r) -> %r expected ['0', '1']" % (float(hi), got), "corpus": None})
+                return
+
+
 def main():
     if sys.argv[1] == "--corpus":
         corpus = json.loads(sys.argv[2])
@@ -445,6 +489,7 @@ def main():
     try:
         check_big(fails)
         check_parsed_dates(fails)
+        check_int_domain(fails)
     except Exception as e:
         fails.append({"case": "exception/big", "detail": "%s: %s | %s" % (type(e).__name__, e, traceback.format_exc()[-400:]), "corpus": None})
     import shutil
